@@ -406,7 +406,12 @@ Section WithEnv.
       match a_pid_with (ro_fec oti) p with
       | None => (RErr o, c)
       | Some (sbn, esi, sbl) =>
-        if tlen =? 0 then let (o1, c1) := complete o c in (ROk o1, c1)
+        if tlen =? 0 then
+          (* an empty object is completed only once an FDT instance has given it a writer (D37) *)
+          match r_writer o with
+          | None => (ROk o, c)
+          | Some _ => let (o1, c1) := complete o c in (ROk o1, c1)
+          end
         else if sbn <? r_off o then (ROk o, c)
         else if match sbl with None => nb_blocks_of oti tlen <=? sbn | Some _ => false end then (RErr o, c)
         else
